@@ -192,7 +192,13 @@ impl SharedIntr {
 }
 
 pub struct Shared {
-    auto: Cell<u8>, // gates are born open (1: all ok, 2: every third fails, 3: all fail — failures only in try_* runs)
+    auto: Cell<u8>, // gates are born open (1: all ok, 2: every third fails, 3: all fail — failures only in try_* runs;
+    // 4: all ok except function 0, whose gate is closed and is opened (failing in try_* runs) from inside the
+    // completion of function `chain` — a function whose body wakes another one in the same poll)
+    chain: Cell<usize>,
+    chain_cnt: Cell<usize>,         // auto mode 4: number of functions invoked so far
+    chain_f: Cell<Option<usize>>,   // the first function invoked (its gate stays closed)
+    chain_x: Cell<Option<usize>>,   // the `chain`-th function invoked (its completion wakes `chain_f`)
     is_try: RefCell<Vec<bool>>,
     log: RefCell<Vec<String>>,
     gates: RefCell<BTreeMap<(usize, usize), GateSt>>,
@@ -232,6 +238,21 @@ impl Future for Gate {
             if intr {
                 self.sh.send_intr(self.run);
             }
+            if self.sh.auto.get() == 4 && Some(self.id) == self.sh.chain_x.get() {
+                // wake the first-started function from inside this completion
+                let may_fail = self.sh.is_try.borrow().get(self.run).copied().unwrap_or(false);
+                let f0 = self.sh.chain_f.get().unwrap_or(usize::MAX);
+                let mut gates = self.sh.gates.borrow_mut();
+                if let Some(st0) = gates.get_mut(&(self.run, f0)) {
+                    if st0.opened.is_none() {
+                        st0.opened = Some(!may_fail);
+                        if let Some(w) = st0.waker.take() {
+                            drop(gates);
+                            w.wake();
+                        }
+                    }
+                }
+            }
             Poll::Ready(ok)
         } else {
             st.waker = Some(cx.waker().clone());
@@ -245,7 +266,18 @@ fn mk_gate(sh: &Rc<Shared>, run: usize, id: usize) -> Gate {
     let auto = sh.auto.get();
     let mut gates = sh.gates.borrow_mut();
     let st = gates.entry((run, id)).or_default();
-    if auto > 0 {
+    if auto == 4 {
+        let k = sh.chain_cnt.get();
+        sh.chain_cnt.set(k + 1);
+        if k == 0 {
+            sh.chain_f.set(Some(id));
+        } else {
+            st.opened = Some(true);
+            if k == sh.chain.get() {
+                sh.chain_x.set(Some(id));
+            }
+        }
+    } else if auto > 0 {
         let may_fail = sh.is_try.borrow().get(run).copied().unwrap_or(false);
         let ok = !(may_fail && (auto == 3 || (auto == 2 && id % 3 == 0)));
         st.opened = Some(ok);
@@ -788,6 +820,7 @@ pub fn session<'g>(
     cfgs: &[RunCfg],
     coop: bool,
     auto: u8,
+    chain: usize,
     late: bool,
     shared_intr: Option<&'g mut SharedIntr>,
     out: &mut Vec<String>,
@@ -796,6 +829,10 @@ pub fn session<'g>(
     let mut shared_intr = shared_intr;
     let sh = Rc::new(Shared {
         auto: Cell::new(auto),
+        chain: Cell::new(chain),
+        chain_cnt: Cell::new(0),
+        chain_f: Cell::new(None),
+        chain_x: Cell::new(None),
         is_try: RefCell::new(cfgs.iter().map(|c| c.is_try()).collect()),
         log: RefCell::new(vec![]),
         gates: RefCell::new(BTreeMap::new()),
@@ -811,7 +848,7 @@ pub fn session<'g>(
         })));
     }
     let late = late && cfgs.len() == 2;
-    out.push(format!("session k={} coop={} auto={} shared={} late={}", cfgs.len(), coop as u8, auto, (shared_intr.is_some() && cfgs.len() == 1 && cfgs[0].has_opts()) as u8, late as u8));
+    out.push(format!("session k={} coop={} auto={} shared={} late={} chain={}", cfgs.len(), coop as u8, auto, (shared_intr.is_some() && cfgs.len() == 1 && cfgs[0].has_opts()) as u8, late as u8, chain));
     for (i, c) in cfgs.iter().enumerate() {
         out.push(c.line(i));
     }
